@@ -1,1 +1,96 @@
+/* unit kbq - kirsch_bounded_kfifo_queue (C06, ownership part of C07).  Contracts, stubs, ghost state, harnesses only;
+ * every function body under contract comes from lowered.h (extracted from the repository on each run). */
+#include <stdint.h>
+#include <stddef.h>
+struct kbq;
+static void mon_load(void* addr, uint64_t v, int o);
+static void mon_cas(void* addr, uint64_t e, uint64_t d, _Bool ok, int o);
+static void mon_store(void* addr, uint64_t v, int o);
+#define XV_ON_LOAD(addr, val, order) mon_load((void*)(addr), (uint64_t)(val), (order))
+#define XV_ON_CAS(addr, e, d, ok, order) mon_cas((void*)(addr), (uint64_t)(e), (uint64_t)(d), (ok), (order))
+#define XV_ON_STORE(addr, val, order) mon_store((void*)(addr), (uint64_t)(val), (order))
 #include "xv.h"
+int xv_threw; uint64_t xv_clock, xv_rmw_old; _Bool xv_cas_ok;
+#define XV_EXC_std__invalid_argument 1
+#define XV_EXC_std__bad_alloc 2
+
+/* ---- shapes ---- */
+#ifndef KMAX
+#define KMAX 3
+#endif
+#ifndef SMAX
+#define SMAX 3
+#endif
+#define NMAX (KMAX * SMAX)
+
+/* ---- types ---- */
+typedef uint64_t marked_idx;       /* struct marked_idx { uint64_t _val; } : its one word */
+typedef uint64_t marked_value;     /* marked_ptr<T,16>: contract of unit mp - 48 pointer bits, 16 mark bits on top, mark trimmed */
+typedef uintptr_t value_type, raw_value_type;
+#define PTR_BITS 48
+#define PTR_MASK ((((uint64_t)1) << PTR_BITS) - 1)
+static marked_value MV_make(uint64_t p, uint64_t mark) { return p | (mark << PTR_BITS); }
+static uint64_t MV_get(marked_value v) { return v & PTR_MASK; }
+static uint64_t MV_mark(marked_value v) { return v >> PTR_BITS; }
+struct entry { marked_value value; };
+struct kbq { uint64_t _queue_size; size_t _k; marked_idx _head; marked_idx _tail; struct entry _queue[NMAX]; };
+#define bits XV_BITS
+#define val_mask XV_VAL_MASK
+
+/* ---- utils::random(): an arbitrary value on every call ---- */
+static uint64_t xv_random(void) { return nondet_u64(); }
+
+/* ---- pointer_queue_traits: ghost ownership ---- */
+unsigned g_released, g_stored, g_deleted_tracked, g_deleted_other; raw_value_type g_track;
+static raw_value_type TR_get_raw(value_type v) { return v; }
+static void TR_release(value_type v) { g_released++; }
+#define TR_store(target, raw) do { (target) = (raw); g_stored++; } while (0)
+static void TR_delete_value(raw_value_type raw) { if (raw != 0) { if (raw == g_track) g_deleted_tracked++; else g_deleted_other++; } }
+
+/* ---- do_pop is instantiated with the two lambdas of try_pop ---- */
+static _Bool kbq_pop_success(value_type* result_p, marked_value* v_p);
+static _Bool kbq_pop_empty(void);
+#define XV_SUCCESSFUNC(v) kbq_pop_success(result_p, &(v))
+#define XV_EMPTYFUNC() kbq_pop_empty()
+
+/* ---- monitors ---- */
+struct kbq* mon_q;
+unsigned mon_nprobe; uint64_t mon_probe[KMAX > 16 ? KMAX : 16];
+_Bool mon_adv_ok = 1, mon_plain_store;
+static uint64_t MI_get(marked_idx), MI_mark(marked_idx); static marked_idx MI_make(uint64_t, uint64_t);
+static void mon_load(void* addr, uint64_t v, int o) {
+  if ((char*)addr >= (char*)&mon_q->_queue[0] && (char*)addr < (char*)&mon_q->_queue[NMAX]) {
+    uint64_t s = (uint64_t)((struct entry*)addr - &mon_q->_queue[0]);
+    if (mon_nprobe < sizeof mon_probe / sizeof mon_probe[0]) mon_probe[mon_nprobe] = s;
+    mon_nprobe++;
+  }
+}
+static void mon_store(void* addr, uint64_t v, int o) { mon_plain_store = 1; }
+static void mon_cas(void* addr, uint64_t e, uint64_t d, _Bool ok, int o);
+
+#include "lowered.h"
+
+/* head/tail change only by CAS from the value read, to (index+k mod size, tag+1) or - head only - to (index, tag+1) */
+static void mon_cas(void* addr, uint64_t e, uint64_t d, _Bool ok, int o) {
+  if (addr == (void*)&mon_q->_head || addr == (void*)&mon_q->_tail) {
+    uint64_t adv = MI_get(e) + mon_q->_k; if (adv >= mon_q->_queue_size) adv -= mon_q->_queue_size;
+    _Bool moved = MI_get(d) == adv, bumped = MI_get(d) == MI_get(e) && addr == (void*)&mon_q->_head;
+    if (!((moved || bumped) && MI_mark(d) == ((MI_mark(e) + 1) & (~(uint64_t)0 >> bits)))) mon_adv_ok = 0;
+  }
+}
+
+/* =====================================================================================================
+ * pure obligations
+ * ===================================================================================================== */
+uint64_t in_v, in_m, in_size;
+/* every index the queue can hold is < _queue_size; the constructor decides which sizes exist (see h_ctor). */
+void h_idx_roundtrip(void) {
+  in_v = nondet_u64(); in_m = nondet_u64(); in_size = nondet_u64();
+  XV_ASSUME(in_size <= XV_CTOR_MAX_SIZE && in_v < in_size);
+  marked_idx w = MI_make(in_v, in_m);
+  XV_OBL("kbq.idx.roundtrip", MI_get(w) == in_v);
+  XV_OBL("kbq.idx.roundtrip", MI_mark(w) == (in_m & (~(uint64_t)0 >> bits)));
+  XV_OBL("kbq.idx.roundtrip", (MI_make(in_v, in_m) == MI_make(in_v, in_m + 1)) == 0);
+  if (in_v > 65536) XV_CANARY("idx.large");
+  if (in_m >> 60) XV_CANARY("idx.mark_trimmed");
+}
